@@ -2,6 +2,7 @@ package jschema
 
 import (
 	stdBytes "bytes"
+	"encoding/json"
 
 	"github.com/jsightapi/jsight-schema-core/bytes"
 	"github.com/jsightapi/jsight-schema-core/errs"
@@ -87,7 +88,7 @@ func (b *exampleBuilder) buildExampleForObjectNode(node *ischema.ObjectNode) ([]
 
 func (b *exampleBuilder) buildObjectKey(k ischema.ObjectNodeKey) ([]byte, error) {
 	if !k.IsShortcut {
-		return []byte(k.Key), nil
+		return escapeJSONString(k.Key)
 	}
 
 	typ, ok := b.types[k.Key]
@@ -100,6 +101,19 @@ func (b *exampleBuilder) buildObjectKey(k ischema.ObjectNodeKey) ([]byte, error)
 		return nil, err
 	}
 	return stdBytes.Trim(ex, `"`), nil
+}
+
+// escapeJSONString returns s the way it has to be written between the quotes
+// of a JSON string (the key is stored decoded).
+func escapeJSONString(s string) ([]byte, error) {
+	var buf stdBytes.Buffer
+	enc := json.NewEncoder(&buf)
+	enc.SetEscapeHTML(false)
+	if err := enc.Encode(s); err != nil {
+		return nil, err
+	}
+	b := buf.Bytes() // "...."\n
+	return b[1 : len(b)-2], nil
 }
 
 func (b *exampleBuilder) buildExampleForArrayNode(node *ischema.ArrayNode) ([]byte, error) {
@@ -196,8 +210,12 @@ func buildExampleForObjectNode(
 	length := len(children)
 	for i, childNode := range children {
 		key := node.Key(i)
+		k, err := escapeJSONString(key.Key)
+		if err != nil {
+			return nil, err
+		}
 		b.WriteByte('"')
-		b.WriteString(key.Key)
+		b.Write(k)
 		b.WriteString(`":`)
 
 		ex, err := buildExample(childNode, types)
